@@ -10,7 +10,9 @@ Abs(x) == IF x < 0 THEN -x ELSE x
 NP(c) == Len(c.steps) + 1
 Sum(f, a, b) == LET F[k \in (a - 1)..b] == IF k < a THEN 0 ELSE F[k - 1] + f[k] IN IF b < a THEN 0 ELSE F[b]
 Path(c, i, j) == Sum(c.steps, i + 1, j)                \* path length from pose i to pose j (0-based poses)
-Rel(c, i, j) == LET d == Abs(c.heads[i + 1] - c.heads[j + 1]) % 360 IN IF d > 180 THEN 360 - d ELSE d
+\* relative rotation angle (degrees) between poses i and j: from planar headings, or given as a matrix (relm) for 3-D attitudes
+Rel(c, i, j) == IF "relm" \in DOMAIN c THEN c.relm[i + 1][j + 1]
+                ELSE LET d == Abs(c.heads[i + 1] - c.heads[j + 1]) % 360 IN IF d > 180 THEN 360 - d ELSE d
 Turn(c, k) == Rel(c, k - 1, k)                         \* rotation of step k (pose k-1 -> k)
 AccRot(c, i, j) == LET F[k \in i..j] == IF k = i THEN 0 ELSE F[k - 1] + Turn(c, k) IN F[j]
 InRange(c, prs) == \A k \in DOMAIN prs : 0 <= prs[k][1] /\ prs[k][1] < prs[k][2] /\ prs[k][2] < NP(c)
